@@ -1388,6 +1388,18 @@ class PyFlow:
     def call(self, e: ast.Call, p: Path, depth: int, stmt_pos: bool, no_effect: bool) -> List[Tuple[Path, Poly]]:
         f = e.func
         fname = f.id if isinstance(f, ast.Name) else (f.attr if isinstance(f, ast.Attribute) else None)
+        # case conversion of a constant string
+        if isinstance(f, ast.Attribute) and f.attr in ("lower", "upper") and not e.args and not e.keywords:
+            outl = []
+            all_const = True
+            for q, base in self.ev(f.value, p, depth, no_effect=True):
+                sv_ = str_of(base)
+                if sv_ is None:
+                    all_const = False
+                    break
+                outl.append((q, S(sv_.lower() if f.attr == "lower" else sv_.upper())))
+            if all_const and outl:
+                return outl
         # str.format on a literal / template
         if isinstance(f, ast.Attribute) and f.attr == "format":
             out = []
